@@ -34,7 +34,7 @@ func TestC06_TmpDoneAfterRemoval(t *testing.T) {
 		<-gate
 		return true
 	})
-	c.RunHandlers(&girc.Event{Command: "FOO"})
+	go c.RunHandlers(&girc.Event{Command: "FOO"}) // RunHandlers need not return while a background handler runs
 	<-entered
 	c.Handlers.ClearAll()
 	close(gate)
